@@ -82,7 +82,11 @@ class RequireWalker(lua.BaseASTWalker):
         """
         if (isinstance(node.exp_prefix, parser.VarName) and
                 node.exp_prefix.name == lexer.TokName(b'require')):
-            arg_exps = node.args.explist.exps if node.args.explist else []
+            if isinstance(node.args, parser.FunctionArgs):
+                arg_exps = node.args.explist.exps if node.args.explist else []
+            else:
+                # require "name" or require {...}: one argument, no parens.
+                arg_exps = [parser.ExpValue(node.args)]
             if len(arg_exps) < 1 or len(arg_exps) > 2:
                 self._error_at_node('require() has {} args, should have 1 or 2'
                                     .format(len(arg_exps)), node)
